@@ -86,6 +86,47 @@ fn cmd_broker_traces(m: &HashMap<String, String>) -> i32 {
     0
 }
 
+/// replay many op lists (one JSON object per line: {"ops": [...], "limit": n}) - the TLC-generated behaviours
+fn cmd_broker_replay_many(m: &HashMap<String, String>) -> i32 {
+    let lists = m.get("lists").expect("--lists");
+    let out_dir = m.get("out").expect("--out");
+    std::fs::create_dir_all(out_dir).ok();
+    let rt = paused_rt();
+    let text = std::fs::read_to_string(lists).expect("read lists");
+    for (i, line) in text.lines().enumerate() {
+        if line.trim().is_empty() {
+            continue;
+        }
+        let meta: serde_json::Value = match serde_json::from_str(line) {
+            Ok(v) => v,
+            Err(e) => {
+                eprintln!("bad list {}: {}", i, e);
+                return 2;
+            }
+        };
+        let ops: Vec<brokerdrv::Op> = match serde_json::from_value(meta["ops"].clone()) {
+            Ok(o) => o,
+            Err(e) => {
+                eprintln!("bad ops {}: {}", i, e);
+                return 2;
+            }
+        };
+        let limit = meta["limit"].as_u64().unwrap_or(0);
+        let cfg = brokerdrv::TraceCfg { seed: i as u64, steps: ops.len(), limit, ordered: false, ttl: 60, quorum: 1, profile: "tlc".to_string(), ops: Some(ops.clone()) };
+        let path = format!("{}/trace_{:05}.ndjson", out_dir, i);
+        let f = std::fs::File::create(&path).expect("create trace");
+        let mut w = BufWriter::new(f);
+        if let Err(e) = rt.block_on(brokerdrv::run_trace(&cfg, &mut w)) {
+            eprintln!("harness error: {}", e);
+            return 2;
+        }
+        w.flush().ok();
+        let meta = serde_json::json!({"seed": i, "limit": limit, "ordered": false, "ttl": 60, "quorum": 1, "profile": "tlc", "ops": ops});
+        std::fs::write(format!("{}/ops_{:05}.json", out_dir, i), serde_json::to_string(&meta).unwrap()).ok();
+    }
+    0
+}
+
 fn cmd_broker_replay(m: &HashMap<String, String>) -> i32 {
     let ops_file = m.get("ops").expect("--ops");
     let out = m.get("out").expect("--out");
@@ -262,6 +303,7 @@ fn main() {
     let code = match args[1].as_str() {
         "broker-traces" => cmd_broker_traces(&m),
         "broker-replay" => cmd_broker_replay(&m),
+        "broker-replay-many" => cmd_broker_replay_many(&m),
         "blocking-runs" => cmd_blocking_runs(&m),
         "resp-cases" => cmd_resp_cases(&m),
         "routing-runs" => cmd_routing_runs(&m),
